@@ -124,7 +124,7 @@ class C20(HistoryProperty):
     NONTRIVIAL_MEASURE = "history_compared_after_restart"
 
     def gen_case(self, rng, tier):
-        cfg = gen.swarm_cfg(rng, off=("shape_change",))
+        cfg = gen.swarm_cfg(rng, off=("shape_change",))  # (no dataset classes: classes pickle by reference, a round trip carries none of their state)
         spec = gen.prune(gen.gen_spec(rng, cfg))
         form = "decorator" if rng.random() < 0.12 else "explicit"
         ops = gen_history(rng, cfg, spec, n_ops=rng.randint(3, 12), ops_kinds=("evaluate", "evaluate", "evaluate", "keys", "validate"))
